@@ -129,6 +129,22 @@ def gen(tier, rng):
                     src = (HEAD + d + "Die Zahl i ist 0.\nDie Zahl j ist 0.\n" + 'Schreibe "start" auf eine Zeile.\n' + batch_src +
                            'Schreibe "ende" auf eine Zeile.\n')
                     progs.append((src, "start\n" + batch_want + "ende\n", (kind, form, n, "in-domain x%d" % nb, None)))
+    # the same accesses with an index of type Byte (unsigned 8 bit: 0 is below every list, 255 above these)
+    for kind in ("zahl", "text", "string"):
+        forms = ["rvalue", "assign", "from", "to", "slice"] + (["ref"] if kind in ("zahl", "text") else [])
+        for n in (0, 1, 3):
+            d, vals = decl(kind, n)
+            for form in forms:
+                for i in sorted({0, 1, n, n + 1, 255}):
+                    j = None
+                    if form == "slice":
+                        j = min(i + 1, 255)
+                    stmt, exp = access(kind, form, n, vals, i, j)
+                    src = HEAD + d + "Der Byte i ist (%d als Byte).\n" % i
+                    if j is not None:
+                        src += "Der Byte j ist (%d als Byte).\n" % j
+                    src += 'Schreibe "start" auf eine Zeile.\n' + stmt + 'Schreibe "ende" auf eine Zeile.\n'
+                    progs.append((src, None if exp is None else "start\n" + exp + "ende\n", (kind, form + ":byte-index", n, i, j)))
     # the value obtained is never used (a local of a function that is not read again): the access still has to stop the program
     ELEM = {"zahl": "Die Zahl", "text": "Der Text", "string": "Der Buchstabe"}
     CONT = {"zahl": "Die Zahlen Liste", "text": "Die Text Liste", "string": "Der Text"}
